@@ -82,7 +82,7 @@ Section C03.
     from_sequence_img unitv ims odim = Ok r ->
     (dim < 3 ->
        2 <= length ims /\
-       col3 (iaff r) dim = vsub (trans_of (iaff (nth 1 ims im0))) (trans_of (iaff im0)) /\
+       col3 (iaff r) dim = map Qred (vsub (trans_of (iaff (nth 1 ims im0))) (trans_of (iaff im0))) /\
        forall i k, i < 4 -> k < 4 -> ~ (i < 3 /\ k = dim) -> mentry (iaff r) i k = mentry (iaff im0) i k) /\
     (3 <= dim -> iaff r = iaff im0).
   Proof.
@@ -91,7 +91,7 @@ Section C03.
     cbn zeta in Hr. subst r. cbn [iaff]. split.
     - intros Hd. replace (dim <? 3) with true by (symmetry; apply Nat.ltb_lt; exact Hd).
       split; [apply Hn, Hd|]. split.
-      + unfold trans_of at 1 2. unfold col3 at 2 3. rewrite vsub3. apply col3_set_col3_same; [exact Hw | lia].
+      + unfold trans_of at 1 2. unfold col3 at 2 3. rewrite vsub3. cbn [map]. apply col3_set_col3_same; [exact Hw | lia].
       + intros i k Hi Hk Hne. rewrite mentry_set_col3 by (assumption || lia).
         destruct ((i <? 3) && (k =? dim)) eqn:E; [|reflexivity].
         apply andb_prop in E as [E1 E2]. apply Nat.ltb_lt in E1. apply Nat.eqb_eq in E2. exfalso. apply Hne. auto.
